@@ -30,6 +30,9 @@ def main():
         try:
             rc, out = sh(["git", "-C", wt, "apply", os.path.join(d, "patch.diff")])
             if rc != 0:
+                rc, out = sh(["git", "-C", wt, "apply", "--3way", os.path.join(d, "patch.diff")])
+                res["three_way"] = rc == 0
+            if rc != 0:
                 res["error"] = "patch does not apply: " + out[-300:]
                 print(rid, json.dumps(res)); continue
             rcb, _ = sh(["go", "build", "./..."], cwd=wt)
